@@ -47,7 +47,7 @@ func parseLinkHeader(header string) []linkResource {
 
 		li, ri := strings.Index(link, "<"), strings.Index(link, ">")
 
-		if li == -1 || ri == -1 {
+		if li == -1 || ri == -1 || ri < li {
 			continue
 		}
 
